@@ -81,11 +81,22 @@ def r13_2(ctx):
     rec = {}
     for cls, name in ((COMPONENT, "set_placed_workplace"), (WORKPLACE, "set_placed_component"), (WORKPLACE, "remove_placed_component")):
         g = ctx.repo.method(cls, name)
-        r = any(isinstance(n, ast.For) and "child_component_list" in ast.unparse(n.iter) and any(isinstance(c, ast.Call) and isinstance(c.func, ast.Attribute) and c.func.attr == name for c in ast.walk(n))
-                for n in ast.walk(g.node))
-        flag_default = [d for p, d in g.defaults.items() if "children" in p]
-        rec[name] = r and all(isinstance(d, ast.Constant) and d.value is True for d in flag_default)
-        ctx.instance(construct(g, "descends"))
+        # small model: a parent P with one child K, default flags: does the method call itself for K?
+        P, K, WPo = Obj("P", COMPONENT), Obj("K", COMPONENT), Obj("WPX", WORKPLACE)
+        heap = {("P", "child_component_list"): ListV([K]), ("K", "child_component_list"): ListV([]), ("self", "placed_component_list"): ListV([P, K], True, "list")}
+        I = mk_interp(ctx, inline=lambda call, callee, depth: False, auto_helpers=False)
+        if cls == COMPONENT:
+            outs = I.run_function(g, bind={g.params[1]: WPo, "__defaults__": True}, heap=heap, self_obj=P)
+        else:
+            heap[("self", "placed_component_list")] = ListV([P, K] if name.startswith("remove") else [], True, "list")
+            outs = I.run_function(g, bind={g.params[1]: P, "__defaults__": True}, heap=heap)
+        r = False
+        for st, ex in outs:
+            for e in flatten(st.trace):
+                if isinstance(e, Call) and g.qualname in e.callees and (e.recv == K or K in [v for v in e.args.values() if isinstance(v, Obj)]):
+                    r = True
+        rec[name] = r
+        ctx.instance(construct(g, "descends"), sample={"calls_itself_for_the_child": r})
     if len(set(rec.values())) != 1:
         ctx.violation("placement-methods:recursion-disagrees", ctx.repo.method(WORKPLACE, "remove_placed_component").loc(), f"the three placement methods disagree on descending to child components: {rec}")
     ctx.end()
